@@ -154,12 +154,14 @@ def readRanges (f : Fam) : List Range → Except Err (List Range)
 
 /-- `Term::borrowed_read_xml` + the family dispatch of `Maybe<Installed>::read_xml`:
 `<then><accept/></then>` required, `<from>` with `<family>` required, name = family,
-family ∈ {inet, inet6} -/
+family ∈ {inet, inet6}. The text of `<family>` is trimmed (fetch.rs:501 `trimmed(..)`), the term's
+`<name>` is not (fetch.rs:363): ` inet ` is the family `inet`, but a term named ` inet ` matches no family. -/
 def readTerm (k : Str) (t : JTerm) : Except Err (Fam × List Range) :=
   if !t.accept then .error .noThen
   else match t.family with
     | none => .error .noFrom
-    | some fam =>
+    | some fam0 =>
+      let fam := trimB fam0
       if fam ≠ k then .error .nameMismatch
       else if fam = inet then
         (match readRanges .v4 t.filters with
